@@ -6,6 +6,7 @@ import time
 
 from . import driver as D
 from . import e1
+from . import e3
 from .specs import L, TRUST, lock_runs
 
 ALL3 = (0, 1, 2)
@@ -147,6 +148,12 @@ EPOCH_PROPS = {"C04", "C16", "C17", "C20"}
 
 LOCK_PROPS = {"C01", "C02", "C03", "C07", "C08", "C09", "C10", "C11", "C12", "C13"}
 
+ZIPF_TRUST = [
+    "the finite grid of (type, bin count, min, skew) configurations stated in coverage.rule; inside the grid coverage is complete",
+    "std::uniform_real_distribution<double> of libstdc++ maps a 64-bit engine output monotonically to the variate (checked by the bisection itself)",
+    "long double (80-bit) Kahan-summed reference for C18",
+]
+
 LEVEL_NOTE = ("bounded exhaustive schedule exploration of the compiled library under a serialising scheduler "
               "(preemption bound per run listed in coverage.runs; state cache closes the search within the bound)")
 
@@ -157,6 +164,8 @@ def run_check(prop, tier):
         return e1.check_property(prop, tier, runs, LEVEL_NOTE, TRUST)
     if prop in IDM_PROPS:
         return e1.check_property(prop, tier, idm_spec(prop, tier), LEVEL_NOTE, TRUST)
+    if prop in ("C06", "C18", "C19"):
+        return e3.check_property(prop, tier, ZIPF_TRUST)
     if prop in EPOCH_PROPS:
         return e1.check_property(prop, tier, epoch_spec(prop, tier), LEVEL_NOTE, TRUST)
     print("no check registered for %s" % prop)
@@ -172,6 +181,7 @@ def setup():
         e1.harness_binary({"kind": "idm", "cap": cap})
     for cap in (1, 2, 3):
         e1.harness_binary({"kind": "epoch", "cap": cap})
+    e3.binary()
     print("setup ok (%.1fs)" % (time.time() - t0))
     return 0
 
@@ -193,6 +203,10 @@ def main(argv):
             if not os.path.isabs(path):
                 path = os.path.join(D.VERIF, path)
             try:
+                with open(path) as fh:
+                    rj = json.load(fh)
+                if rj.get("harness") == "zipf_enum":
+                    return e3.replay_file(rj)
                 return e1.replay_file(path)
             except D.InternalError as e:
                 print("INTERNAL-ERROR: %s" % e)
